@@ -56,11 +56,13 @@ def main():
     rc, out = sh(f"git -C /repo worktree add -q --detach {wt} HEAD")
     assert rc == 0, out
     bad = 0
+    skipped = 0
     try:
         for name, d in items:
             rc, out = sh(f"git -C {wt} apply {d / 'patch.diff'}")
             if rc != 0:
                 print(f"{name}: patch does not apply ({out.strip()[:120]})")
+                skipped += 1
                 continue
             rc, out = sh("/venv/bin/python -c 'import graphql'", env=dict(os.environ, PYTHONPATH=f"{wt}/src"))
             res = run_checks(wt)
@@ -80,8 +82,8 @@ def main():
                 print(f"{name}: silent (19 checks)")
     finally:
         sh(f"git -C /repo worktree remove --force {wt}")
-    print(f"{len(items) - bad}/{len(items)} refactorings raise no alarm")
-    return 1 if bad else 0
+    print(f"{len(items) - bad - skipped}/{len(items)} refactorings raise no alarm" + (f" ({skipped} not evaluated: patch needs a rebase)" if skipped else ""))
+    return 1 if bad or skipped else 0
 
 
 if __name__ == "__main__":
